@@ -308,7 +308,35 @@ def run_case(case):
                             f'but cdf(x-d)={lo[i]!r}, cdf(x+d)={hi[i]!r}', case=case)
         except Exception as e:
             r.violation(f'{sig}:ppf-bisect-raises:{type(e).__name__}', f'{tag}: bisect percent_point raised {e}', case=case)
+        # ... on batches without any interior probability (only 0 / 1, a lone end, the empty batch): the same answers as
+        # the default solver
+        for bname, batch in (('[0, 1]', np.array([0.0, 1.0])), ('[0]', np.array([0.0])), ('[1]', np.array([1.0])),
+                             ('empty', np.array([], dtype=float)), ('[1, 0.5, 0]', np.array([1.0, 0.5, 0.0]))):
+            try:
+                xd = np.asarray(call('percent_point', batch.copy()), float)
+                xb = np.asarray(call('percent_point', batch.copy(), method='bisect'), float)
+                r.tr(2)
+                okb = xd.shape == xb.shape and np.all((xd == xb) | (np.abs(xd - xb) <= 5e-8 + 1e-6 * s + res))
+                if not okb:
+                    r.violation(f'{sig}:ppf-bisect-end-batches', f'{tag}: percent_point({bname}, method="bisect") = {xb.tolist()} '
+                                f'but the default solver gives {xd.tolist()}', case=case)
+            except Exception as e:
+                r.violation(f'{sig}:ppf-bisect-raises:{type(e).__name__}:end-batch', f'{tag}: percent_point({bname}, '
+                            f'method="bisect") raised {type(e).__name__}: {e}', case=case)
         r.hit('kde-bisect')
+
+    # ---- probabilities given as an INTEGER array (0 and 1 are probabilities): the quantiles of 0.0 and 1.0 --------------
+    try:
+        qi = np.asarray(call('percent_point', np.array([0, 1])), float)
+        qf = np.asarray(call('percent_point', np.array([0.0, 1.0])), float)
+        r.tr(2)
+        if not np.array_equal(qi, qf, equal_nan=True):
+            r.violation(f'{sig}:ppf-integer-probabilities', f'{tag}: percent_point(array([0, 1])) = {qi.tolist()} but '
+                        f'percent_point(array([0., 1.])) = {qf.tolist()}', case=case)
+    except Exception as e:
+        if not raised:
+            r.violation(f'{sig}:ppf-raises:{type(e).__name__}:integer-probabilities', f'{tag}: percent_point(array([0, 1])) '
+                        f'raised {type(e).__name__}: {e}', case=case)
 
     # ---- the fitted model keeps no live reference to the caller's training buffer ------------------------------
     try:
